@@ -9,7 +9,15 @@ _T = ["chacha_xor_ic_eq", "chacha_stream_eq", "chacha_offset_law", "ietf_guard_i
 THEOREMS = vcore.theorems_in("SodiumModel/Properties/C03.lean", _T, "Sodium.C03")
 THEOREMS = THEOREMS + vcore.theorems_in("SodiumModel/Properties/C03Cores.lean", ['chacha20_ref_block_eq_spec', 'chacha20_ref_block_eq_blockOrig', 'chacha20_ref_block_eq_blockIetf', 'chacha20_ref_block_xor', 'chacha20_ref_block_xor_spec', 'chacha20_ref_counter_step', 'chacha20_ref_counter_step_value', 'chacha20_ref_block_length', 'chacha20_ref_eq_model', 'stream_ref_xor_ic_spec', 'stream_ref_spec', 'stream_ietf_ext_ref_xor_ic_spec', 'stream_ietf_ext_ref_spec', 'crypto_core_salsa_spec', 'crypto_core_salsa20_spec', 'crypto_core_salsa2012_spec', 'crypto_core_salsa208_spec', 'crypto_core_salsa_any_rounds', 'crypto_core_salsa_odd_rounds', 'crypto_core_salsa_block', 'crypto_core_hsalsa20_spec', 'crypto_core_hchacha20_spec', 'xchacha20_ref_block_eq_spec', 'xsalsa20_ref_block_eq_spec', 'driver_chachaB', 'driver_chachaBi', 'driver_salsaS'], "Sodium.C03Cores")
 IMPORTS = ["SodiumModel.Properties.C03"] if THEOREMS else ["SodiumModel.Model.Stream"]
-IMPORTS = IMPORTS + ["SodiumModel.Properties.C03Cores"]
+IMPORTS = IMPORTS + ["SodiumModel.Properties.C03Cores", "SodiumModel.Properties.C03Simd"]
+THEOREMS = THEOREMS + vcore.theorems_in("SodiumModel/Properties/C03Simd.lean", ['shuffle_epi8_rot16', 'shuffle_epi8_rot8', 'shuffle256_epi8_rot16', 'shuffle256_epi8_rot8', 'VEC4_ROT_12', 'VEC4_ROT_7', 'row_rot_12', 'row_rot_7', 'VEC4_QUARTERROUND_lane', 'u4_doubleRound_lanes', 'u8_doubleRound_lanes', 'row_doubleRound_eq', 'refBlocks_counter', 'refBlocks_length', 'u1_block', 'u4_counter_lanes', 'u8_counter_lanes', 'u4_blocks', 'u8_blocks', 'u0_tail', 'avx2_encrypt_bytes_eq_ref', 'ssse3_encrypt_bytes_eq_ref', 'avx2_eq_ssse3', 'counter_after_simd', 'counter_after_ref', 'ctx_after_eq_ref_of_full_blocks', 'counter_differs_after_partial_block', 'inplace_bodies_eq', 'stream_ref_eq_ref', 'stream_ietf_ext_ref_eq_ref', 'stream_ref_xor_ic_eq_ref', 'ietf_ext_xor_ic_eq_ref', 'avx2_stream_xor_ic_spec', 'ssse3_stream_xor_ic_spec', 'avx2_stream_spec', 'ssse3_stream_spec', 'avx2_ietf_xor_ic_spec', 'ssse3_ietf_xor_ic_spec', 'avx2_ietf_stream_spec', 'ietf_boundary_bumps_nonce_word', 'ietf_boundary_inside_u8_batch', 'ietf_boundary_inside_u4_batch'], "Sodium.C03Simd")
+FINGERPRINTS = "C03"     # Tie B: pinned source text of the hand-transcribed dolbeau ChaCha20 files (tools/fingerprint.py)
+
+
+def tie_b(ctx):
+    """the vectorised ChaCha20 model's trusted intrinsic semantics are re-validated against this CPU on every run"""
+    vcore.simd_check(ctx, "chacha", "intrinsics_check.c", ["-mavx2", "-mssse3", "-msse4.1"], "SimdCheck.lean", via_stdin=True)
+    return []
 RULE = ("every length 0..2304 for the ChaCha20 and Salsa20 XOR forms, sampled/boundary lengths for the other functions; block counters 0, "
         "random, 2^32 +- 16, 2^64-1-16..2^64-1; IETF counter at the guard boundary +- 1 (misuse observed in a child); "
         "HChaCha20/HSalsa20/Salsa cores with and without custom constants; configurations = CPU masks (AVX2 / SSSE3 / ref, xmm6 asm) "
